@@ -1,15 +1,21 @@
 """C07 -- a transfer stores the dataset once, byte-identical, and announces it once.
 
 The REAL cascade.executor.data_server.DataServer objects (one per host, built by their real __init__) and REAL
-comms.Listener / callback / send_data / ReliableSender run in-process over harness/fakes/ds_fakes.py: a bag-of-frames
-network that the trace loses / duplicates / delays, a manual thread pool (jobs finish when the trace says, also inside
-wait()), a per-host fake shm client with the conflict rule of cascade.shm, and a fake clock.  One trace step = one
-iteration of the real recv_loop, one pool job, one network event, one controller command, or a clock tick.
+comms.Listener / callback / send_data / get_socket / ReliableSender run in-process over harness/fakes/ds_fakes.py: a fake
+transport below them (zmq.Context / zmq.Poller: PUSH sockets that assemble multipart messages per socket, frame by
+frame; a bag of messages in flight that the trace loses / duplicates / delays), a manual thread pool (jobs finish when
+the trace says, also inside wait(); a job can be advanced frame send by frame send, so that the sends of the two pool
+threads interleave as the trace says), a per-host fake shm client with the conflict rule of cascade.shm, and a fake
+clock.  One trace step = one iteration of the real recv_loop, one pool job (or one step of it), one network event, one
+controller command, or a clock tick.  The harness touches the data server only through what it is given from outside
+(listener socket, sockets it opens, shm client, clock, pool, wait) plus `recv_loop`, `terminating`, `dlistener`.
 
 * oracle: a direct reading of the property on what the hosts' shm stores contain, what is called back to the message
   socket, what the controller's listener returns, and when shm purge is called (independent of the model);
 * correspondence: the same trace is evaluated by the Coq model (Net/DataServer.v) and the observable end state compared
-  inside Coq (Net/DataServerCheck.check_case)."""
+  inside Coq (Net/DataServerCheck.check_case); pool jobs are atomic in that model, which Net/Multipart.v justifies for
+  frame sends that do not interleave on one socket: the log of all frame sends of the trace is checked inside Coq too
+  (Net/MultipartCheck.check_case_w)."""
 import hashlib
 import itertools
 import json
@@ -21,16 +27,21 @@ sys.path.insert(0, os.path.join(os.path.dirname(os.path.abspath(__file__)), "fak
 from common import cN, cbool, clist, cnat, copt, cstr, coq_results  # noqa: E402
 
 TRUSTED = [
-    "harness/fakes/ds_fakes.py: fake PUSH/PULL sockets and poller (a bag of frames), manual thread pool + data_server.wait "
-    "(the trace picks which job finishes while the loop blocks), per-host fake shm client (allocate on an existing key -> ConflictError, "
-    "get of a missing key -> ValueError, purge of a missing key -> nothing; as cascade.shm.dataset.Manager), fake clock",
+    "harness/fakes/ds_fakes.py: fake zmq.Context/Poller (PUSH: per-socket assembly of multipart messages, send_multipart = one send per frame "
+    "as in pyzmq; the wire is a bag of messages; PULL: a queue), manual thread pool + concurrent.futures.wait "
+    "(the trace picks which job finishes while the loop blocks; stepped jobs run on their own thread under a cooperative scheduler and pause "
+    "after each non-final frame they send), per-host fake shm client (allocate on an existing key -> ConflictError, "
+    "get of a missing key -> ValueError, purge of a missing key -> nothing; as cascade.shm.dataset.Manager), fake clock (time.time_ns)",
     "name -> number maps for hosts/addresses, dataset ids and deser_fun strings (injective per case); pickle framing of messages is in the loop "
     "on the implementation side and not modelled (frames are compared after des_message)",
 ]
 ASSUMPTIONS = [
-    "jobs given to ds_proc_tp (send_payload / store_payload) are atomic w.r.t. the loop: the loop looks at them only through Future.done() in "
-    "maybe_clean / wait, and their effects (shm allocate+write+close, one send) do not interleave with another job on the same dataset "
-    "(cascade.shm serialises allocate/get per key: a second allocate conflicts, a get of an unclosed buffer waits)",
+    "jobs given to ds_proc_tp (send_payload / store_payload) are atomic in the Coq model w.r.t. the loop: the loop looks at them only through "
+    "Future.done() in maybe_clean / wait, and their effects (shm allocate+write+close, one send) do not interleave with another job on the same dataset "
+    "(cascade.shm serialises allocate/get per key: a second allocate conflicts, a get of an unclosed buffer waits); the one multi-step effect that "
+    "two jobs could interleave, the frame-by-frame send of a multipart message, is atomic iff no other send uses the same socket meanwhile "
+    "(Net/MultipartProofs.v); that condition is exercised on the implementation (stepped jobs) and checked on every trace",
+    "zmq assembles multipart messages per socket and delivers them whole; a PUSH socket used by two threads at once interleaves their frames",
     "ds2shmid is injective on the datasets of a run (md5 of a separator-safe encoding)",
     "a dataset id denotes one value: every worker publication of dataset d carries content(d); a worker publishes d at most once per host "
     "and never after d was purged there (Section variable `content`, trace well-formedness of HPublish)",
@@ -40,12 +51,16 @@ ASSUMPTIONS = [
 ]
 
 HEADER = """From Coq Require Import List NArith ZArith String.
-From EKW Require Import Net.DataServer Net.DataServerCheck.
+From EKW Require Import Net.DataServer Net.DataServerCheck Net.Multipart Net.MultipartCheck.
 Import ListNotations.
 Open Scope string_scope.
 """
 
 DESER = ["cloudpickle.loads", "numpy.load", "earthkit.data.from_bytes", ""]
+
+
+class OutsideModel(ValueError):
+    """the trace contains a message the Coq model has no term for (frames of different messages mixed)"""
 
 
 # ----------------------------------------------------------------------------- running one case on the real code
@@ -72,6 +87,9 @@ class Runner:
         self.local_pub = set()
         self.stats = set()
         self.data_frames_per_idx = {}
+        self.seen_mixed = 0
+        self.ctl_crash_seen = False
+        self.skipped = 0
         self.cm = None
 
     def __enter__(self):
@@ -116,9 +134,12 @@ class Runner:
     def c_frame(self, frames):
         import pickle
         from cascade.executor import msg
-        m0 = pickle.loads(frames[0])
+        try:
+            m0 = pickle.loads(frames[0])
+            m1 = pickle.loads(frames[1]) if isinstance(m0, msg.Syn) and len(frames) > 1 else None
+        except Exception:
+            raise OutsideModel("undecodable frame")
         if isinstance(m0, msg.Syn):
-            m1 = pickle.loads(frames[1])
             if isinstance(m1, msg.DatasetTransmitPayloadHeader) and len(frames) == 3:
                 return f"(FData {cN(m0.idx)} {cN(self.addrnum(m0.addr))} {self.c_pay(m1, frames[2])})"
             if isinstance(m1, msg.DatasetTransmitCommand) and len(frames) == 2:
@@ -127,7 +148,7 @@ class Runner:
             return f"(FAck {cN(m0.idx)})"
         elif isinstance(m0, msg.DatasetPurge) and len(frames) == 1:
             return f"(FPurge {cN(self.dsnum(m0.ds))})"
-        raise ValueError(f"frame shape outside the model: {[type(m0).__name__, len(frames)]}")
+        raise OutsideModel(f"frame shape outside the model: {[type(m0).__name__, len(frames)]}")
 
     def c_aframe(self, af):
         return f"({cN(self.addrnum(af[0]))}, {self.c_frame(af[1])})"
@@ -138,15 +159,30 @@ class Runner:
     def frame_kind(self, frames):
         import pickle
         from cascade.executor import msg
-        m0 = pickle.loads(frames[0])
-        if isinstance(m0, msg.Syn):
-            m1 = pickle.loads(frames[1])
-            if isinstance(m1, msg.DatasetTransmitCommand):
-                return ("cmd", m1.idx)
-            return ("data", m1.confirm_idx)
-        if isinstance(m0, msg.Ack):
-            return ("ack", m0.idx)
-        return ("purge", None)
+        try:
+            m0 = pickle.loads(frames[0])
+            if isinstance(m0, msg.Syn):
+                m1 = pickle.loads(frames[1])
+                if isinstance(m1, msg.DatasetTransmitCommand) and len(frames) == 2:
+                    return ("cmd", m1.idx)
+                if isinstance(m1, msg.DatasetTransmitPayloadHeader) and len(frames) == 3:
+                    return ("data", m1.confirm_idx)
+            elif isinstance(m0, msg.Ack) and len(frames) == 1:
+                return ("ack", m0.idx)
+            elif isinstance(m0, msg.DatasetPurge) and len(frames) == 1:
+                return ("purge", None)
+        except Exception:
+            pass
+        return ("garbled", None)
+
+    def job_done_terms(self, h, k, finished):
+        """pool jobs are atomic in the model: a job appears in the model's trace when it finishes"""
+        cl = self.cluster
+        for (ah, ak) in cl.finished_aside:
+            self.terms.append(f"OA (AHost {cN(ah)} (HRunJob {cnat(ak)}))")
+        cl.finished_aside.clear()
+        if finished:
+            self.terms.append(f"OA (AHost {cN(h)} (HRunJob {cnat(k)}))")
 
     # --- one operation
     def do(self, op):
@@ -202,7 +238,11 @@ class Runner:
                 self.terms.append(f"OIter {cN(op['h'])} {clist([cnat(p) for p in op.get('picks', [])])}")
         elif k == "runjob":
             cl.run_job(op["h"], op["k"])
-            self.terms.append(f"OA (AHost {cN(op['h'])} (HRunJob {cnat(op['k'])}))")
+            self.job_done_terms(op["h"], op["k"], True)
+        elif k == "stepjob":
+            fin = cl.step_job(op["h"], op["k"])
+            self.stats.add("job-stepped")
+            self.job_done_terms(op["h"], op["k"], fin)
         else:
             raise ValueError(k)
         for af in cl.net[nbefore:]:
@@ -211,6 +251,8 @@ class Runner:
                 self.data_frames_per_idx[kind[1]] = self.data_frames_per_idx.get(kind[1], 0) + 1
                 if self.data_frames_per_idx[kind[1]] > 1 and k != "dup":
                     self.stats.add("payload-resent-after-grace")
+                    if kind[1] == 0:
+                        self.stats.add("payload-of-idx-0-resent")
         self.ops_done.append(op)
         self.check_step(op)
 
@@ -266,6 +308,15 @@ class Runner:
                 if self.fetched[m.header.confirm_idx] > 1:
                     self.fail("fetch-delivered-twice", f"controller received the payload of fetch idx={m.header.confirm_idx} {self.fetched[m.header.confirm_idx]} times")
         self.seen_ctl = len(cl.ctl_received)
+        for (address, lens, tags) in cl.mixed[self.seen_mixed:]:
+            self.stats.add("frames-of-two-sends-mixed")
+            self.fail("payload-frames-interleaved", f"a multipart message of {len(lens)} frames (sizes {lens}) was put on the wire to {address!r} whose frames were "
+                      f"sent by different senders {[('h%s pool job %s' % (t[1], t[2])) if t[0] == 'job' else str(t) for t in tags]}: two sends shared one socket "
+                      "at the same time, so no receiver gets either payload intact")
+        self.seen_mixed = len(cl.mixed)
+        if cl.ctl_crashed and not self.ctl_crash_seen:
+            self.ctl_crash_seen = True
+            self.fail("controller-listener-raised", f"the controller's Listener raised {cl.ctl_crashed} on what a data server sent to it")
         for (host, key, pend, nopen) in cl.purge_violations:
             self.fail("purge-did-not-wait", f"host h{host}: shm purge of {self.case['datasets'][self.key2ds.get(key, 0)]} called while pool jobs {pend} on that dataset had not finished ({nopen} buffers open)")
         cl.purge_violations.clear()
@@ -341,9 +392,38 @@ class Runner:
         nt = clist([self.c_aframe(af) for af in cl.net])
         return clist(obs), nt
 
+    def wire(self):
+        """every frame send of the trace: (socket, sender, SNDMORE); senders numbered per case.  A pool job is one sender;
+        the loop of a host / the controller / the executor send complete messages one after the other"""
+        tags = {}
+        out = []
+        for (sid, tag, more, _addr) in self.cluster.wire_log:
+            t = tags.setdefault(tag, len(tags))
+            out.append(f"mkFS {cN(sid)} {cN(t)} {cbool(more)}")
+        return clist(out)
+
+    def wire_stats(self):
+        """did the frame sends of two pool jobs interleave (on the wire log as a whole / towards one destination)?"""
+        log = self.cluster.wire_log
+        pos = {}
+        for i, (sid, tag, more, addr) in enumerate(log):
+            if tag[0] == "job":
+                pos.setdefault(tag, []).append((i, addr, sid))
+        for tag, ps in pos.items():
+            lo, hi = ps[0][0], ps[-1][0]
+            for j in range(lo + 1, hi):
+                sid2, tag2, more2, addr2 = log[j]
+                if tag2 != tag and tag2[0] == "job":
+                    self.stats.add("pool-sends-interleaved")
+                    if addr2 == ps[0][1]:
+                        self.stats.add("pool-sends-interleaved-same-destination")
+                        if sid2 == ps[0][2]:
+                            self.stats.add("pool-sends-interleaved-same-socket")
+
     def term(self):
         obs, nt = self.observation()
-        return f"(({clist(self.terms)},\n   {obs},\n   {nt}) : list op * list hobs * list (N * frame))"
+        self.wire_stats()
+        return (f"((({clist(self.terms)},\n   {obs},\n   {nt}) : list op * list hobs * list (N * frame)),\n   {self.wire()})")
 
 
 # purges are detected through the fake shm: wrap on_purge bookkeeping into the runner
@@ -378,37 +458,94 @@ def drain(r, do, rounds=7):
         do({"op": "tick", "ms": 4100})
 
 
-def execute(case, lenient=False):
-    """replays a fully resolved case on the real code -> (runner).  lenient: operations that do not apply to the
-    behaviour of the current code (a frame or job index that does not exist here) are skipped and counted"""
+def safe_term(r):
+    try:
+        return r.term()
+    except OutsideModel as e:
+        r.stats.add("trace-outside-model")
+        r.outside = str(e)
+        return None
+
+
+def execute(case, lenient=True):
+    """replays a fully resolved case on the real code -> (runner).  Operations that do not apply to the behaviour of
+    the current code (a frame or job index that does not exist here: the trace was resolved on other code) are skipped
+    and counted, and the trace is then finished fairly before completion is judged"""
     with Runner(case) as r:
         _install_purge_tracking(r)
-        r.skipped = 0
         for op in case["ops"]:
             if lenient:
                 try:
                     r.do(op)
-                except (IndexError, AssertionError):
+                except (IndexError, AssertionError, KeyError):
                     r.skipped += 1
             else:
                 r.do(op)
+        if case.get("drained") and lenient and r.skipped:
+            drain(r, r.do)
         r.check_crashes()
         if case.get("drained"):
-            if lenient:   # a trace recorded on other code may end differently here: finish it fairly before judging completion
-                drain(r, r.do)
             r.check_final()
-        term = r.term()
+        term = safe_term(r)
     return r, term
+
+
+# ----------------------------------------------------------------------------- scripts: operations named by what they act on
+def resolve(r, sop):
+    """a scripted step -> the concrete operation on the live cluster, or None when there is nothing of that kind now"""
+    cl = r.cluster
+    k = sop["op"]
+    if k in ("deliver", "drop", "dup") and "to" in sop:
+        for i, (address, frames) in enumerate(cl.net):
+            if r.addrnum(address) == sop["to"] and r.frame_kind(frames)[0] == sop.get("kind", "data"):
+                return {"op": k, "i": i}
+        return None
+    if k in ("runjob", "stepjob") and "k" not in sop:
+        pend = cl.pool[sop["h"]].pending()
+        nth = sop.get("nth", 0)
+        if nth >= len(pend):
+            return None
+        return {"op": k, "h": sop["h"], "k": pend[nth]}
+    return dict(sop)
+
+
+def run_script(base, script, mode):
+    """resolves a script online (like the random generator), then the loss-free drain -> (case, runner, term)"""
+    case = {**base, "ops": [], "drained": True, "mode": mode}
+    with Runner(case) as r:
+        _install_purge_tracking(r)
+
+        def do(op):
+            case["ops"].append(op)
+            r.do(op)
+        for sop in script:
+            op = resolve(r, sop)
+            if op is None:
+                r.stats.add("scripted-step-not-applicable")
+                continue
+            try:
+                do(op)
+            except (IndexError, AssertionError, KeyError):
+                case["ops"].pop()
+                r.stats.add("scripted-step-not-applicable")
+        drain(r, do)
+        r.check_crashes()
+        r.check_final()
+        term = safe_term(r)
+    return case, r, term
 
 
 # ----------------------------------------------------------------------------- generator (online: choices look at the live cluster)
 def rbytes(rng):
-    return bytes(rng.randrange(256) for _ in range(rng.choice([1, 1, 2, 3, 4, 6]))).hex()
+    return bytes(rng.randrange(256) for _ in range(rng.choice([1, 1, 2, 3, 4, 6, 6, 17]))).hex()
 
 
-def gen_case(rng, mode="random"):
-    n = rng.choice([2, 2, 3])
-    nds = rng.choice([1, 2, 2, 3])
+def can_step(cl, h, k):
+    pool = cl.pool[h]
+    return k in pool.under_way() or len(pool.under_way()) < pool.max_workers
+
+
+def gen_setup(rng, n, nds):
     names = [["t1", "0"], ["t1", "00"], ["t10", "0"], ["a", "bc"], ["ab", "c"]]
     rng.shuffle(names)
     datasets = names[:nds]
@@ -417,6 +554,93 @@ def gen_case(rng, mode="random"):
         c = [rbytes(rng), rng.choice(DESER)]
         if c not in content:
             content.append(c)
+    return datasets, content
+
+
+def gen_concurrent(rng):
+    """several transfers (or fetches, or a transfer and a retry) from ONE source to ONE destination are under way on the
+    source's pool at the same time and their frame sends interleave, possibly after earlier, completed transfers between
+    the same two endpoints (whatever the source keeps from them -- sockets, buffers, counters -- is reused)"""
+    n = rng.choice([2, 2, 3])
+    nds = rng.choice([2, 3, 3, 4])
+    datasets, content = gen_setup(rng, n, nds)
+    case = {"nhosts": n, "datasets": datasets, "content": content, "ops": [], "drained": True, "mode": "concurrent"}
+    with Runner(case) as r:
+        _install_purge_tracking(r)
+        cl = r.cluster
+
+        def do(op):
+            case["ops"].append(op)
+            r.do(op)
+
+        def settle(rounds=2, lose_data=False):
+            for _ in range(rounds):
+                while cl.net:
+                    if lose_data and r.frame_kind(cl.net[0][1])[0] == "data":
+                        do({"op": "drop", "i": 0})
+                        lose_data = False
+                    else:
+                        do({"op": "deliver", "i": 0})
+                for h in range(0, n + 1):
+                    do({"op": "iter", "h": h, "picks": []})
+                for h in range(1, n + 1):
+                    for k in cl.pool[h].pending():
+                        do({"op": "runjob", "h": h, "k": k})
+        src = rng.randrange(1, n + 1)
+        dest = rng.choice([h for h in range(0, n + 1) if h != src])
+        for d in range(nds):
+            do({"op": "publish", "h": src, "ds": d})
+        free = list(range(nds))
+        rng.shuffle(free)
+        idx = rng.choice([0, 0, 1, 5])
+        variant = rng.choice(["cold", "warm", "warm", "retry"])
+        if variant in ("warm", "retry"):     # an earlier transfer between the same endpoints, completed (or its payload lost: a retry is due)
+            d = free.pop()
+            do({"op": "transmit", "src": src, "tgt": dest, "ds": d, "idx": idx})
+            idx += 1
+            settle(2, lose_data=(variant == "retry"))
+            if variant == "retry":
+                do({"op": "tick", "ms": rng.choice([4001, 4100, 6000])})
+            elif rng.random() < 0.3:
+                do({"op": "tick", "ms": rng.choice([100, 4100])})
+        k = rng.choice([2, 2, 3]) if variant != "retry" else rng.choice([1, 2])
+        for _ in range(min(k, len(free))):
+            d = free.pop()
+            tgt = dest if rng.random() < 0.85 else rng.choice([h for h in range(0, n + 1) if h != src])
+            do({"op": "transmit", "src": src, "tgt": tgt, "ds": d, "idx": idx})
+            idx += 1
+        while any(r.frame_kind(f)[0] == "cmd" for _, f in cl.net):
+            cands = [i for i, (_, f) in enumerate(cl.net) if r.frame_kind(f)[0] == "cmd"]
+            do({"op": "deliver", "i": rng.choice(cands)})
+        do({"op": "iter", "h": src, "picks": [rng.randrange(4) for _ in range(rng.choice([0, 0, 2]))]})
+        # the pool: two workers take the jobs in submission order; which of the two gets on is the trace's choice
+        guard = 0
+        while cl.pool[src].pending() and guard < 60:
+            guard += 1
+            front = cl.pool[src].pending()[:cl.pool[src].max_workers]
+            kk = rng.choice(front)
+            x = rng.random()
+            if x < 0.8 and can_step(cl, src, kk):
+                do({"op": "stepjob", "h": src, "k": kk})
+            elif x < 0.9:
+                do({"op": "runjob", "h": src, "k": kk})
+            elif cl.net:
+                do({"op": "deliver", "i": rng.randrange(len(cl.net))})
+            else:
+                do({"op": "iter", "h": rng.randrange(0, n + 1), "picks": []})
+        drain(r, do)
+        r.check_crashes()
+        r.check_final()
+        term = safe_term(r)
+    return case, r, term
+
+
+def gen_case(rng, mode="random"):
+    if mode == "concurrent":
+        return gen_concurrent(rng)
+    n = rng.choice([2, 2, 3])
+    nds = rng.choice([1, 2, 2, 3])
+    datasets, content = gen_setup(rng, n, nds)
     case = {"nhosts": n, "datasets": datasets, "content": content, "ops": [], "drained": True, "mode": mode}
     with Runner(case) as r:
         _install_purge_tracking(r)
@@ -433,7 +657,7 @@ def gen_case(rng, mode="random"):
                 do({"op": "publish", "h": h, "ds": d})
         # the plan of controller commands
         plan = []
-        idx = rng.choice([0, 0, 3, 17])
+        idx = rng.choice([0, 0, 0, 1, 3, 17])    # a real controller counts from 0
         ncmd = rng.choice([1, 2, 3, 4, 5, 6])
         for _ in range(ncmd):
             d = rng.randrange(nds)
@@ -487,7 +711,10 @@ def gen_case(rng, mode="random"):
                 do({"op": "iter", "h": h, "picks": [rng.randrange(4) for _ in range(rng.choice([0, 2, 4]))]})
             elif pend and x < 0.88:
                 h, k = rng.choice(pend)
-                do({"op": "runjob", "h": h, "k": k})
+                if rng.random() < 0.4 and can_step(cl, h, k):
+                    do({"op": "stepjob", "h": h, "k": k})
+                else:
+                    do({"op": "runjob", "h": h, "k": k})
             else:
                 do({"op": "tick", "ms": rng.choice([500, 1000, 3999, 4000, 4001, 5000, 9000])})
         for p in plan:
@@ -495,29 +722,58 @@ def gen_case(rng, mode="random"):
         drain(r, do)
         r.check_crashes()
         r.check_final()
-        term = r.term()
+        term = safe_term(r)
     return case, r, term
 
 
 def corpus():
-    """hand-written histories: loss of the payload, loss of the ack, duplicate payload, redundant transfer, purge racing a store, payload after purge"""
-    base = {"nhosts": 2, "datasets": [["t1", "0"], ["t1", "00"]], "content": [["00ff10", "cloudpickle.loads"], ["aa", "numpy.load"]], "drained": False, "mode": "corpus"}
+    """hand-written histories as scripts (steps name what they act on, they are resolved on the live cluster): loss of the payload,
+    loss of the ack, duplicate payload, redundant transfer, purge racing a store, payload after purge, a duplicated fetch; repeated
+    loss for the controller's first transfers (idx 0, 1); frame-by-frame interleaving of two sends to one destination after an
+    earlier transfer to it, of two fetches, and of a transfer with a retry -> [(base, script)]"""
+    base = {"nhosts": 2, "datasets": [["t1", "0"], ["t1", "00"], ["t10", "0"]],
+            "content": [["00ff10", "cloudpickle.loads"], ["aa", "numpy.load"], ["0b0c", ""]]}
     pub = {"op": "publish", "h": 1, "ds": 0}
+    pub1 = {"op": "publish", "h": 1, "ds": 1}
+    pub2 = {"op": "publish", "h": 1, "ds": 2}
     tx = {"op": "transmit", "src": 1, "tgt": 2, "ds": 0, "idx": 0}
     it1, it2, it0 = ({"op": "iter", "h": h, "picks": []} for h in (1, 2, 0))
-    dl = {"op": "deliver", "i": 0}
-    rj = lambda h, k: {"op": "runjob", "h": h, "k": k}
+    D = lambda kind, to: {"op": "deliver", "to": to, "kind": kind}
+    X = lambda kind, to: {"op": "drop", "to": to, "kind": kind}
+    U = lambda kind, to: {"op": "dup", "to": to, "kind": kind}
+    rj = lambda h, nth=0: {"op": "runjob", "h": h, "nth": nth}
+    sj = lambda h, nth=0: {"op": "stepjob", "h": h, "nth": nth}
+    T = lambda s, t, d, i: {"op": "transmit", "src": s, "tgt": t, "ds": d, "idx": i}
     tick = {"op": "tick", "ms": 4100}
+    purge2 = {"op": "purge", "h": 2, "ds": 0}
     out = []
-    out.append([pub, tx, dl, it1, rj(1, 0), dl, dl, it2, rj(2, 0), it1, dl, it1, it0, tick, it1])                       # happy path
-    out.append([pub, tx, dl, it1, rj(1, 0), dl, {"op": "drop", "i": 0}, it1, tick, it1, rj(1, 1), dl, it2, rj(2, 0), dl, it1, tick, it1, tick, it1])   # payload lost, resent
-    out.append([pub, tx, dl, it1, rj(1, 0), dl, dl, it2, {"op": "drop", "i": 0}, rj(2, 0), it1, tick, it1, rj(1, 1), dl, it2, dl, it1, tick, tick, it1])  # ack lost
-    out.append([pub, tx, dl, it1, rj(1, 0), {"op": "dup", "i": 1}, dl, dl, dl, it2, it2, rj(2, 0)])                       # duplicated payload
-    out.append([pub, {"op": "publish", "h": 2, "ds": 0}, tx, dl, it1, rj(1, 0), dl, dl, it2, rj(2, 0)])                   # target already has it
-    out.append([pub, tx, dl, it1, rj(1, 0), dl, dl, {"op": "purge", "h": 2, "ds": 0}, dl, {"op": "iter", "h": 2, "picks": [0]}])  # purge races the store
-    out.append([pub, tx, dl, it1, rj(1, 0), {"op": "purge", "h": 2, "ds": 0}, {"op": "deliver", "i": 2}, it2, dl, dl, it2])   # payload after purge
-    out.append([pub, {"op": "transmit", "src": 1, "tgt": 0, "ds": 0, "idx": 5}, dl, it1, rj(1, 0), {"op": "dup", "i": 1}, dl, dl, dl, it0, it0, it0])  # fetch, duplicated
-    return [{**base, "ops": ops} for ops in out]
+    out.append([pub, tx, D("cmd", 1), it1, rj(1), D("ack", 0), D("data", 2), it2, rj(2), it1, D("ack", 1), it1, it0, tick, it1])       # happy path
+    out.append([pub, tx, D("cmd", 1), it1, rj(1), D("ack", 0), X("data", 2), it1, tick, it1, rj(1), D("data", 2), it2, rj(2), D("ack", 1), it1, tick, it1, tick, it1])   # payload lost, resent
+    out.append([pub, tx, D("cmd", 1), it1, rj(1), D("ack", 0), D("data", 2), it2, X("ack", 1), rj(2), it1, tick, it1, rj(1), D("data", 2), it2, D("ack", 1), it1, tick, tick, it1])  # ack lost
+    out.append([pub, tx, D("cmd", 1), it1, rj(1), U("data", 2), D("ack", 0), D("data", 2), D("data", 2), it2, it2, rj(2)])                 # duplicated payload
+    out.append([pub, {"op": "publish", "h": 2, "ds": 0}, tx, D("cmd", 1), it1, rj(1), D("ack", 0), D("data", 2), it2, rj(2)])            # target already has it
+    out.append([pub, tx, D("cmd", 1), it1, rj(1), D("ack", 0), D("data", 2), purge2, D("purge", 2), {"op": "iter", "h": 2, "picks": [0]}])  # purge races the store
+    out.append([pub, tx, D("cmd", 1), it1, rj(1), purge2, D("purge", 2), it2, D("ack", 0), D("data", 2), it2])                             # payload after purge
+    out.append([pub, T(1, 0, 0, 5), D("cmd", 1), it1, rj(1), U("data", 0), D("ack", 0), D("data", 0), D("data", 0), it0, it0, it0])        # fetch, duplicated
+    # the controller's first transfers: the payload of idx 0 is lost twice, later the payload of idx 1 once
+    out.append([pub, pub1, tx, D("cmd", 1), it1, rj(1), X("data", 2), tick, it1, rj(1), X("data", 2), tick, it1, rj(1), D("data", 2), it2, rj(2),
+                D("ack", 1), it1, T(1, 2, 1, 1), D("cmd", 1), it1, rj(1), X("data", 2), tick, it1, it1, tick, it1])
+    # idx 0 confirmed long ago, idx 1 lost afterwards
+    out.append([pub, pub1, tx, D("cmd", 1), it1, rj(1), D("data", 2), it2, rj(2), D("ack", 1), it1, tick, it1, tick, it1,
+                T(1, 2, 1, 1), D("cmd", 1), it1, rj(1), X("data", 2), tick, it1, tick, it1])
+    # an earlier transfer h1 -> h2, then two more whose sends interleave frame by frame on the pool's two threads
+    warm = [pub, pub1, pub2, tx, D("cmd", 1), it1, rj(1), D("data", 2), it2, rj(2), D("ack", 1), it1]
+    for pattern in ([0, 1, 0, 1, 0, 1], [0, 1, 1, 0, 0], [0, 0, 1, 1, 1, 0], [1, 0, 0, 1]):
+        out.append(warm + [T(1, 2, 1, 1), T(1, 2, 2, 2), D("cmd", 1), D("cmd", 1), it1] + [sj(1, nth) for nth in pattern])
+    # two fetches of the controller interleaved, with and without an earlier fetch
+    out.append([pub, pub1, T(1, 0, 0, 0), T(1, 0, 1, 1), D("cmd", 1), D("cmd", 1), it1, sj(1, 0), sj(1, 1), sj(1, 0), sj(1, 1), sj(1, 0), sj(1, 1)])
+    out.append([pub, pub1, pub2, T(1, 0, 2, 0), D("cmd", 1), it1, rj(1), D("data", 0), it0, T(1, 0, 0, 1), T(1, 0, 1, 2), D("cmd", 1), D("cmd", 1), it1,
+                sj(1, 0), sj(1, 1), sj(1, 1), sj(1, 0), sj(1, 0)])
+    # a retry of a lost payload interleaved with a new transfer to the same target
+    out.append([pub, pub1, tx, D("cmd", 1), it1, rj(1), X("data", 2), tick, T(1, 2, 1, 1), D("cmd", 1), it1, sj(1, 0), sj(1, 1), sj(1, 0), sj(1, 1), sj(1, 0)])
+    # sends to two different destinations interleaved (nothing is shared between them)
+    out.append([pub, pub1, T(1, 2, 0, 0), T(1, 0, 1, 1), D("cmd", 1), D("cmd", 1), it1, sj(1, 0), sj(1, 1), sj(1, 0), sj(1, 1), sj(1, 0), sj(1, 1)])
+    return [(base, script) for script in out]
 
 
 # ----------------------------------------------------------------------------- run / search / replay
@@ -528,22 +784,44 @@ def case_key(case):
 def nontrivial(r):
     s = r.stats
     return bool({"transfer-completed", "fetch-completed", "purge-applied"} & s) and bool(
-        {"lost-data", "lost-ack", "dup-data", "dup-ack", "payload-resent-after-grace", "purge-waited-for-running-jobs", "loop-blocked-in-wait"} & s)
+        {"lost-data", "lost-ack", "dup-data", "dup-ack", "payload-resent-after-grace", "purge-waited-for-running-jobs", "loop-blocked-in-wait",
+         "pool-sends-interleaved"} & s)
+
+
+STREAMS = [("random", 500, 12000), ("purge-race", 200, 5000), ("concurrent", 160, 4000)]
+
+
+def guarded(make, res, stream):
+    """one case; an exception of the harness itself on this case is contained (the other cases still run) and reported
+    as a broken correspondence"""
+    import traceback
+    try:
+        return make()
+    except Exception as e:
+        res.count("harness-exception:" + stream)
+        if not any("harness exception" in d["what"] for d in res.disagreements):
+            res.disagree(f"harness exception while driving the implementation on a {stream} case: {e!r}", {"traceback": traceback.format_exc()[-3000:]})
+        return None
 
 
 def run(ctx, res):
-    res.rule = ("a trace (2-3 data servers + controller, 1-3 datasets, 1-7 transfer/fetch/purge commands incl. redundant ones, random delivery / loss / "
-                "duplication of command, payload and ack frames, loop iterations, pool-job completions, clock ticks across the 4 s grace period, then a "
-                "loss-free drain) counts as non-trivial when a transfer or fetch completed or a purge was applied AND a payload/ack frame was lost or "
-                "duplicated, or a payload was re-sent after the grace period, or the loop blocked in wait() while jobs ran; distinct = distinct resolved op lists")
+    res.rule = ("a trace (2-3 data servers + controller, 1-4 datasets, 1-7 transfer/fetch/purge commands incl. redundant ones, transfer idx counted from 0, "
+                "random delivery / loss / duplication of command, payload and ack frames, loop iterations, pool-job completions and frame-by-frame steps of "
+                "up to two pool jobs at a time, clock ticks across the 4 s grace period, then a loss-free drain) counts as non-trivial when a transfer or "
+                "fetch completed or a purge was applied AND a payload/ack frame was lost or duplicated, or a payload was re-sent after the grace period, "
+                "or the loop blocked in wait() while jobs ran, or the frame sends of two pool jobs interleaved; distinct = distinct resolved op lists")
     terms, metas = [], []
 
-    def one(case, r, term, stream):
+    def one(got, stream):
+        if got is None:
+            return
+        case, r, term = got
         res.evaluations += 1
         res.count("stream:" + stream)
         for s in sorted(r.stats):
             res.count("has:" + s)
         res.count(f"hosts:{case['nhosts']}")
+        res.count("first-idx:%s" % min([o["idx"] for o in case["ops"] if o["op"] == "transmit"], default="-"))
         res.count("ops:%d-%d" % (len(case["ops"]) // 50 * 50, len(case["ops"]) // 50 * 50 + 49))
         if nontrivial(r):
             res.nontrivial_keys.add(case_key(case))
@@ -551,47 +829,58 @@ def run(ctx, res):
             res.fail(sig, what, case)
         if len(res.samples) < 3 and stream == "random" and nontrivial(r):
             res.samples.append({"nhosts": case["nhosts"], "datasets": case["datasets"], "ops": case["ops"][:25], "stats": sorted(r.stats)})
+        if term is None:
+            if not r.fails:
+                res.disagree("the trace contains a message the Coq model has no term for (" + getattr(r, "outside", "") + ") although no oracle fired", case)
+            return
         terms.append(term)
         metas.append(case)
 
-    for case in corpus():
-        r, term = execute(case)
-        one(case, r, term, "corpus")
-    rng = ctx.sub_rng("random")
-    for _ in range(ctx.n(500, 12000)):
-        case, r, term = gen_case(rng)
-        one(case, r, term, "random")
-    rng = ctx.sub_rng("purge-race")
-    for _ in range(ctx.n(200, 5000)):
-        case, r, term = gen_case(rng, mode="purge-race")
-        one(case, r, term, "purge-race")
-    results, logs = coq_results("C07", HEADER, terms, "check_case", tag="trace", shard=60, timeout=900)
+    for base, script in corpus():
+        one(guarded(lambda: run_script(base, script, "corpus"), res, "corpus"), "corpus")
+    for stream, nq, nt in STREAMS:
+        rng = ctx.sub_rng(stream)
+        for _ in range(ctx.n(nq, nt)):
+            one(guarded(lambda: gen_case(rng, mode=stream), res, stream), stream)
+    results, logs = coq_results("C07", HEADER, terms, "check_case_w", tag="trace", shard=60, timeout=900)
     res.corr_checked += len(results)
     for ok, case in zip(results, metas):
         if ok is not True:
-            res.disagree("Coq model (Net.DataServer.run_ops) and the real DataServer/Listener differ on the observable end state of a trace" +
+            res.disagree("Coq model (Net.DataServer.run_ops, Net.Multipart.wrun) and the real DataServer/Listener differ on the observable end state of a trace" +
                          ("" if ok is False else " (cases file did not compile: " + (logs[0][-400:] if logs else "") + ")"), case)
             break
 
 
 def search(ctx, res):
     """enlarged search for a concrete failing input (oracle only)"""
+    def found(case, r):
+        return shrink(ctx, {"signature": r.fails[0][0], "what": r.fails[0][1], "case": case})
     for d in res.disagreements:
         c = d.get("case")
         if c and c.get("ops"):
-            r, _ = execute(c)
+            try:
+                r, _ = execute(c)
+            except Exception:
+                continue
             if r.fails:
-                return shrink(ctx, {"signature": r.fails[0][0], "what": r.fails[0][1], "case": c})
-    for c in corpus():
-        r, _ = execute(c)
+                return found(c, r)
+    for base, script in corpus():
+        try:
+            case, r, _ = run_script(base, script, "corpus")
+        except Exception:
+            continue
         if r.fails:
-            return {"signature": r.fails[0][0], "what": r.fails[0][1], "case": c}
-    for k in range(4):
+            return found(case, r)
+    modes = ["random", "concurrent", "purge-race", "concurrent", "random", "purge-race"]
+    for k, mode in enumerate(modes):
         rng = ctx.sub_rng(f"search{k}")
-        for _ in range(1500):
-            case, r, _ = gen_case(rng, mode=("purge-race" if k % 2 else "random"))
+        for _ in range(1000):
+            try:
+                case, r, _ = gen_case(rng, mode=mode)
+            except Exception:
+                continue
             if r.fails:
-                return shrink(ctx, {"signature": r.fails[0][0], "what": r.fails[0][1], "case": case})
+                return found(case, r)
     return None
 
 
@@ -604,7 +893,7 @@ def shrink(ctx, f):
 
     def still(ops):
         try:
-            r, _ = execute({**case, "ops": ops}, lenient=True)
+            r, _ = execute({**case, "ops": ops})
         except Exception:
             return None
         for s, w in r.fails:
@@ -634,7 +923,7 @@ def replay(ctx, case):
     c = case.get("case") or (case.get("first_disagreement") or {}).get("case") or case
     if not c.get("ops"):
         return {"fails": None, "note": "no op list in this replay file"}
-    r, _ = execute(c, lenient=True)
+    r, _ = execute(c)
     return {"fails": bool(r.fails), "failures": [{"signature": s, "what": w} for s, w in r.fails], "stats": sorted(r.stats),
             "operations_not_applicable_to_this_code": r.skipped,
             "crashed": {f"h{i}": w for i, w in r.cluster.crashed.items() if w}}
